@@ -13,7 +13,9 @@ Layers:
     Counted separately in the evidence (`pos-in-user-snippet`).
   * CORRESPONDENCE: outcome class of the extracted Coq model `expand_markup_str` (Ok | ParseErr kind pos |
     Internal | OutOfFuel) == outcome class of the implementation (incl. error kind and position) on every case
-    the model covers (not BEM, not lorem).  Output TEXT equality is recorded as a statistic only.
+    the model covers (BEM configurations included; not lorem).  Output TEXT equality is recorded as a statistic only.
+  * BEM addon (coq/model/MarkupBem.v): harness/bem_util.py compares the FULL expand() output of model and
+    implementation on exhaustive class-name strings over nested elements, with/without context, custom separators.
   * deep-nesting probe (fresh interpreter, default recursion limit): the two inputs of DESIGN §5 C07.
 """
 import copy
@@ -35,7 +37,7 @@ assert len(ALPHABET) == 23
 RANDOM_EXTRA = ['\n', '\t', 'é', '٣', ':', '!', '@', '%', '|', ',', '0', 'l', 'x', '_', '²', ' ']
 HANG_S = 5.0
 NUM_FRAGS = ['$', '$$', '$$$', '@', '@-', '@^', '@^^', '^', '^^', '-', '3', '12', '0', '*', '*2', '*3', '*0', 'a', 'li', '.c', '#i', '>', '+',
-             '(', ')', '{', '}', '[t=', ']', '$#', '${1}', '${', 'lorem', 'lorem5', '-1', '-', '/', 'ul>li', '.i$@^', '{$@^^^}', '$@^^-2']
+             '(', ')', '{', '}', '[t=', ']', '$#', '${1}', '${', '-1', '-', '/', 'ul>li', '.i$@^', '{$@^^^}', '$@^^-2']
 
 SYNTAXES = ['html', 'xml', 'xsl', 'jsx', 'js', 'pug', 'slim', 'haml', 'vue', 'svelte', 'xhtml']
 TEXTS = [None, None, None, 'hello', 'two\nlines', '  ', '', ['x'], ['x', 'y', 'z'], ['', ' ', 'q'], [], 'a$#b',
@@ -438,7 +440,7 @@ def gen(ctx):
         for n in (1, 2):
             for tup in itertools.product(ALPHABET, repeat=n):
                 cs.add(''.join(tup), cfg, 'exhaustive2:options')
-    # BEM (not in the Coq model: implementation oracle only): every string over a class-name alphabet
+    # BEM: every string over a class-name alphabet (outcome class vs the model here; full output: harness/bem_util.py)
     bem_alpha = list('a.-_>+^*2$')
     bem_cfgs = [{'options': {'bem.enabled': True}},
                 {'options': {'bem.enabled': True}, 'context': {'name': 'div', 'attributes': {'class': 'blk'}}, 'text': ['x', 'y']}]
@@ -548,8 +550,13 @@ def run_markup(ctx, model_ok=True):
             '(delete/insert/swap/duplicate) of valid abbreviations under random option sets (syntax, text str/list, comments, JSX, '
             'BEM, context, maxRepeat/max_repeat, user snippets incl. malformed ones, variables, output options). Observable: outcome '
             'class ok | scanner-error pos | token-error pos | internal type | recursion | hang. Non-trivial = raises a parse error '
-            'or expands >= 2 characters of input to non-empty text; distinct by (configuration, input). BEM and lorem cases are '
-            'checked by the implementation oracle only (bem.enabled and lorem text are not in the Coq model).') % (n_ex, len(VALID))
+            'or expands >= 2 characters of input to non-empty text; distinct by (configuration, input). lorem cases are '
+            'checked by the implementation oracle only (lorem text is not in the Coq model). BEM (coq/model/MarkupBem.v): '
+            'additionally the FULL output string of model and implementation is compared on every class string up to length 4 '
+            '(thorough: 5) over `a b - _ 1 space` on the last of 1-3 nested elements, with/without a context class, default and '
+            'custom separators, exhaustive pairs/triples of short class strings on chains and siblings (module-lifetime cache of '
+            'get_block_name), dotted abbreviations, re.I code points, and random mixes with fields/numbering/snippets '
+            '(harness/bem_util.py).') % (n_ex, len(VALID))
     ctx.cov['rule'] = rule
     impl = impl_many([(a, ci) for a, ci, _ in cs.items], cs.cfgs)
     # ---- oracle on every case
@@ -589,11 +596,13 @@ def run_markup(ctx, model_ok=True):
     ctx.cov['theorem_status'] = {
         'full': ['C07_tokenize_safe', 'C07_parser_safe', 'C07_tokenize_parse_safe', 'C07_convert_safe', 'C07_resolve_safe',
                  'C07_builtin_tables_wf (complete sweep)', 'C07_user_table_wf', 'C07_tokenizer_output_wellformed',
-                 'C07_parser_output_convertible', 'C07_expand_safe (markup model, all inputs, all configurations with wf snippet table)',
+                 'C07_parser_output_convertible', 'C07_bem_safe (BEM addon never raises: all nodes, paths, cache states, separators, contexts)',
+                 'C07_transform_safe (transform pass incl. BEM is total)',
+                 'C07_expand_safe (markup model, all inputs, all configurations with wf snippet table, bem.enabled included)',
                  'C07_expand_safe_any_table (malformed user snippets: position inside the snippet text)'],
         'partial': [],
-        'by_construction': ['transform pass and formatters return plain values (no res, no fuel): proofs/SafeFormat.v'],
-        'not_in_model(implementation oracle only)': ['bem.enabled', 'lorem text generation', 'markup.href rewriting',
+        'by_construction': ['formatters return plain values (no res, no fuel): proofs/SafeFormat.v'],
+        'not_in_model(implementation oracle only)': ['lorem text generation', 'markup.href rewriting',
                                                      'user callbacks other than the identity', 'CPython recursion limit (known finding)'],
     }
     # ---- correspondence with the extracted model
@@ -612,7 +621,7 @@ def run_markup(ctx, model_ok=True):
     wires, idx = [], []
     for k, (abbr, ci, tag) in enumerate(cs.items):
         if enc[ci] is None:
-            ctx.cover('markup:not-modelled(bem or option type)')
+            ctx.cover('markup:not-modelled(option type)')
             continue
         if lorem_cfg[ci] or 'lorem' in abbr.lower():
             ctx.cover('markup:not-compared(lorem)')
@@ -639,6 +648,9 @@ def run_markup(ctx, model_ok=True):
     ctx.cov['correspondence']['markup_expand_outcome_class'] = {
         'cases': len(wires), 'disagreements': dis,
         'output_text_differs(statistic only; not the observable of C07)': text_diff}
+    # ---- BEM addon: full output, model vs implementation (harness/bem_util.py)
+    import bem_util
+    bem_util.run_bem(ctx, model)
 
 
 def replay_markup(ctx, obj):
